@@ -88,8 +88,13 @@ func getHistoricalFilePaths(current string, storage Storage) ([]string, error) {
 	if err != nil && !os.IsNotExist(err) {
 		return nil, err
 	}
-	filenames := make([]string, 1, len(history)+1)
-	filenames[0] = current
+	filenames := make([]string, 0, len(history)+1)
+	// The current key may have been destroyed (its file removed) while rotated keys are kept in the
+	// history: those must still be offered. Without any history the current file stays in the list,
+	// so that reading it reports the missing key as before.
+	if _, err := storage.Stat(current); !os.IsNotExist(err) || len(history) == 0 {
+		filenames = append(filenames, current)
+	}
 	// ReadDir() returns directory content in lexicographically sorted order. History files
 	// have current time as a suffix so we need to reverse the order to move through them
 	// from newest to oldest.
